@@ -105,6 +105,10 @@ fn small_order(w: &mut Rng, id: IdS, price: u64, ts: u64, plain_only: bool) -> O
             o.p2_some = w.chance(3, 4);
             o.p2 = 1 + w.below(8);
             o.p1 = w.below(6);
+            // now and then fully hidden but replenishable (first visit shows the first tranche)
+            if o.auto && o.hid > 0 && w.chance(1, 8) {
+                o.vis = 0;
+            }
         }
         Kind::TrailingStop => {
             o.p1 = 5;
@@ -124,7 +128,11 @@ pub fn gen_program(seed: u64, prof: &TProfile) -> Program {
     let mut w = Rng::stream(seed, 2);
     let mut f = Rng::stream(seed, 4);
     let price = *k.pick(&[1u64, 100, 100, 10_000]);
-    let n_pre = 2 + k.below(4) as usize;
+    let n_pre = match k.below(10) {
+        0 => 0,
+        1 => 1,
+        _ => 2 + k.below(4) as usize,
+    };
     let n_thr = 2 + k.below(3) as usize;
     let mut next_id = 0u128;
     let id_fmt = k.below(3);
@@ -187,14 +195,19 @@ pub fn gen_program(seed: u64, prof: &TProfile) -> Program {
             pool.push(o.id);
         }
     }
-    let hot = preload[0].id;
+    let hot = preload.first().map(|o| o.id).unwrap_or(*pool.first().unwrap_or(&IdS {
+        ulid: false,
+        v: 0xdead,
+    }));
     let absent = IdS {
         ulid: false,
         v: 0xdead,
     };
     let mut target = |w: &mut Rng| -> IdS {
         let r = w.below(100);
-        if r < prof.hot {
+        if pool.is_empty() {
+            absent
+        } else if r < prof.hot {
             hot
         } else if r < 95 {
             *w.pick(&pool)
@@ -256,7 +269,13 @@ pub fn gen_program(seed: u64, prof: &TProfile) -> Program {
         }
     }
     let strategy = gen_strategy(&mut k, n_thr);
+    let churn: Vec<IdS> = if k.chance(1, 4) && !preload.is_empty() {
+        vec![preload[k.below(preload.len() as u64) as usize].id]
+    } else {
+        vec![]
+    };
     Program {
+        churn,
         knobs: TKnobs {
             price,
             hash_seed: k.next(),
@@ -486,6 +505,11 @@ pub fn minimise_program(p0: &Program, sig: &str) -> (Program, u64) {
             c.knobs.clock = ClockCfg::default();
             cands.push(c);
         }
+        if !best.churn.is_empty() {
+            let mut c = best.clone();
+            c.churn.clear();
+            cands.push(c);
+        }
         for c in cands {
             let o = run_program(&c);
             attempts += 1;
@@ -576,8 +600,8 @@ pub fn make(prop: &str) -> Option<TCheck> {
                 w: [2, 4, 2, 5, 1, 2, 1],
                 hot: 55,
             },
-            quick: 60_000,
-            thorough: 3_000_000,
+            quick: 400_000,
+            thorough: 8_000_000,
             rule: "engine T: 2-4 threads x 1-4 ops (add/match/cancel/amend/move/replace/read) on a level pre-loaded with 2-5 orders, one scheduling point before every atomic, map and queue operation, schedule drawn from a seeded strategy; at quiescence aggregates == sums over the listing and per-order conservation (supplied = executed + handed back + resting + discarded) from the recorded history; non-trivial = two threads touched the same order id with overlapping operation intervals; distinct = distinct digest of the full event log (every step, every response)",
         },
         "C08" => TCheck {
@@ -586,8 +610,8 @@ pub fn make(prop: &str) -> Option<TCheck> {
                 w: [4, 4, 2, 2, 1, 1, 1],
                 hot: 40,
             },
-            quick: 50_000,
-            thorough: 2_500_000,
+            quick: 400_000,
+            thorough: 8_000_000,
             rule: "engine T programs followed by a draining match from the driver under a step budget; after the drain nothing with displayed quantity is listed, aggregates == sums, and every order listed at quiescence is accounted for by the drain's transactions; plus programs of concurrent push/pop/remove/find on a bare OrderQueue with an exactly-once hand-out ledger; non-trivial as C03",
         },
         "C12" => TCheck {
@@ -596,8 +620,8 @@ pub fn make(prop: &str) -> Option<TCheck> {
                 w: [4, 4, 2, 4, 1, 2, 3],
                 hot: 45,
             },
-            quick: 60_000,
-            thorough: 3_000_000,
+            quick: 400_000,
+            thorough: 8_000_000,
             rule: "engine T with a stop-the-world observer: before every single instrumented step of every thread the three aggregates are read and compared with 0 <= value <= total ever supplied (adds and amend quantities invoked so far); reader operations inside the programs are held to the same bound; non-trivial as C03",
         },
         "C13" => TCheck {
@@ -606,8 +630,8 @@ pub fn make(prop: &str) -> Option<TCheck> {
                 w: [1, 5, 4, 4, 1, 1, 0],
                 hot: 70,
             },
-            quick: 60_000,
-            thorough: 3_000_000,
+            quick: 400_000,
+            thorough: 8_000_000,
             rule: "engine T programs in which cancels / quantity amends race matches, amends and cancels on the same order; the recorded history (invocation, response and every map step with its outcome, stamped with global step numbers) yields each order's book interval; a not-found inside the interval, or a reported success that did not take the order out / after which the order re-appears, is untruthful; the holder at the failing lookup classifies it; non-trivial as C03",
         },
         "C15T" => TCheck {
@@ -616,8 +640,8 @@ pub fn make(prop: &str) -> Option<TCheck> {
                 w: [3, 4, 2, 2, 2, 1, 1],
                 hot: 40,
             },
-            quick: 30_000,
-            thorough: 1_500_000,
+            quick: 400_000,
+            thorough: 8_000_000,
             rule: "",
         },
         _ => return None,
